@@ -143,6 +143,7 @@ type Req struct {
 	A, B, C uint64
 	Chunks  [][]byte `json:"chunks,omitempty"`
 	Tables  bool     `json:"tables,omitempty"` // include full table contents in dumps
+	Args    []string `json:"args,omitempty"`   // op "cli": arguments of the qed command line
 }
 
 // Resp is the child's answer.
